@@ -54,6 +54,14 @@ Bwd == /\ pc = "bwd" /\ k > 1
        /\ UNCHANGED <<n, rank, tgt, order, cumT, cumD, fdr>>
 Next == Sort \/ Fwd \/ Bwd
 Spec == Init /\ [][Next]_vars
+\* simulation beyond the exhaustive bounds (MaxN = 7: 6.05 M inputs): one random input per behaviour
+SimInit == /\ n = MaxN /\ rank = [i \in 1..MaxN |-> 1] /\ tgt = [i \in 1..MaxN |-> TRUE]
+           /\ pc = "pick" /\ order = <<>> /\ k = 0 /\ cumT = 0 /\ cumD = 0 /\ fdr = <<>> /\ minQ = One /\ q = <<>>
+SimPick == /\ pc = "pick"
+           /\ rank' = [i \in 1..MaxN |-> RandomElement(1..MaxN)]
+           /\ tgt' = [i \in 1..MaxN |-> RandomElement(BOOLEAN)]
+           /\ pc' = "sort" /\ UNCHANGED <<n, order, k, cumT, cumD, fdr, minQ, q>>
+SimSpec == SimInit /\ [][SimPick \/ Next]_vars
 
 Pos(i) == CHOOSE p \in 1..n : order[p] = i
 QOp(i) == q[Pos(i)]
